@@ -120,7 +120,8 @@ def gen_effects(T):
     except Exception as e:
         raise T.Missing(f"GeodesicExact.cpp: cannot evaluate the narr decoding '{m.group(1)}': {e}")
     dst = T.preprocess("src/DST.cpp")
-    mult = set(int(x) for x in re.findall(r"fft_t\s*\(\s*(\d+)\s*\*\s*_nN", dst) + re.findall(r"assign\s*\(\s*(\d+)\s*\*\s*_nN", dst))
+    cast = r"(?:(?:std::)?size_t\s*\(\s*|static_cast\s*<[^>]*>\s*\(\s*)?"   # an integer-widening cast around _nN is harmless
+    mult = set(int(x) for x in re.findall(r"fft_t\s*\(\s*(\d+)\s*\*\s*" + cast + r"_nN", dst) + re.findall(r"assign\s*\(\s*(\d+)\s*\*\s*" + cast + r"_nN", dst))
     if len(mult) != 1:
         raise T.Missing(f"DST.cpp: FFT length as a multiple of _nN not found / not unique: {sorted(mult)}")
     mult = mult.pop()
